@@ -464,6 +464,9 @@ class Interp:
     # ------------------------------------------------------------------------------------------
     def veq(self, a, b, node=None):
         """Python `a == b` as a z3 Bool."""
+        if (isinstance(a, VOpaque) and a.label == 'missing') or (isinstance(b, VOpaque) and b.label == 'missing'):
+            self.ctx.qcount += 1
+            return z3.Const('missing-cmp!%d' % self.ctx.qcount, T.B)
         if isinstance(a, VOpt):
             return z3.If(a.is_none, self.veq(NONE, b, node), self.veq(a.val, b, node))
         if isinstance(b, VOpt):
@@ -500,6 +503,10 @@ class Interp:
             return z3.And(*[self.veq(x, y, node) for x, y in zip(a.items, b.items)]) if a.items else z3.BoolVal(True)
         if isinstance(a, VOpaque) and isinstance(b, VOpaque):
             return a.t == b.t
+        if self.pure and (isinstance(a, VOpaque) or isinstance(b, VOpaque)):
+            x, y = (a, b) if isinstance(a, VOpaque) else (b, a)
+            if isinstance(y, (VSeq, VInt, VBool, VRef)):
+                return x.t == self.ctx.obj_term(self, y, node)
         if isinstance(a, VType) and isinstance(b, VType):
             return z3.BoolVal(a.name == b.name)
         if isinstance(a, VClass) and isinstance(b, VClass):
@@ -581,6 +588,12 @@ class Interp:
             r = self.ctx.sidecar_lookup(self, frame.sidecar, name)
             if r is not None:
                 return r
+        if frame.cls is not None and frame.finfo is None:
+            # evaluation of a class-body expression: earlier class attributes are in scope
+            a = frame.cls.find_attr(self.repo, name)
+            if a is not None:
+                owner, expr = a
+                return self.ev(expr, Frame({}, owner.module, owner))
         if frame.module is not None:
             r = frame.module.lookup(self.repo, name)
             if r is not None:
@@ -754,8 +767,9 @@ class Interp:
         is_and = isinstance(node.op, ast.And)
         if self.pure:
             vals = [self.ev(v, frame) for v in node.values]
-            if all(isinstance(v, VBool) for v in vals):
-                ts = [v.t for v in vals]
+            if all(isinstance(v, (VBool, VOpaque)) for v in vals) or frame.spec is not None:
+                # contract text: and / or are the logical connectives
+                ts = [self.truthy(v, node) for v in vals]
                 return VBool(z3.And(*ts) if is_and else z3.Or(*ts))
             # value-returning and/or in spec text
             acc = vals[-1]
@@ -1125,6 +1139,8 @@ class Interp:
                 mname = self.mangle(name, frame)
                 if mname in c.fields:
                     return c.fields[mname]
+                if name == '__class__' and c.cls is not None:
+                    return VClass(c.cls)
                 if c.cls is not None:
                     m = c.cls.find_method(self.repo, name)
                     if m is not None:
@@ -1177,6 +1193,11 @@ class Interp:
                     raise Unsupported('module attribute %s' % name, node)
                 return self.static_value(r, frame, node)
             return self.ctx.extern_value(obj.name + '.' + name)
+        if isinstance(obj, VOpaque) and obj.label == 'missing' and self.pure:
+            return obj          # attribute of a non-existent event argument: still "missing"
+        if isinstance(obj, VOpaque) and self.pure:
+            # spec text reading a field of an object known only as a term (e.g. an argument of a summarised event)
+            return VOpaque(self.ctx.uf('field.' + name, T.Obj, T.Obj)(obj.t), 'field')
         if isinstance(obj, VOpaque):
             return VBuiltin('opaque.' + name, obj)
         if isinstance(obj, VBuiltin) and obj.self_val is None and not obj.name.startswith(('extcontract:', 'exc-class:')):
